@@ -122,14 +122,20 @@ def run(tier, seed, replay):
     b6 = vf.driver("d_c06", "asan")
     gouts, crashes = vf.run_shards(b6, ["--mode", "gen", "--n", 200000 if tier == "thorough" else 20000, "--seed", seed], vf.NCPU, rd, tag="tok", timeout=3000)
     rep.crash_violations(crashes, prefix="tokens:")
+    
     for ev in vf.read_jsonl(gouts):
         if ev[0] == "STATS":
             rep.evaluations += ev[2]; rep.count("tokens.verify_calls", ev[2])
-        elif ev[0] == "T" and ev[2] & (1 << 31):
-            tok = bytes.fromhex(ev[3])
-            verdict, why = token_class.classify(tok)
-            rep.violation("verify:fails-without-error-flag:token-class:%s:%s" % (c06.GEN[ev[1]] if ev[1] < 20 else "corpus", why),
-                          "jwt_checker_verify returned non-zero with a clear error flag", dict(token=tok[:300].decode("latin-1"), classifier=[verdict, why]))
+        elif ev[0] == "T":
+            rep.count("tokens.logged")
+            for bit, key, what in ((31, "verify:fails-without-error-flag", "jwt_checker_verify returned non-zero with a clear error flag"),
+                                   (30, "verify:fails-with-empty-message", "jwt_checker_verify returned non-zero, the error flag is set but the message is empty"),
+                                   (29, "verify:succeeds-with-error-state", "jwt_checker_verify returned 0 but the error flag is set or the message is non-empty")):
+                if ev[2] & (1 << bit):
+                    tok = bytes.fromhex(ev[3])
+                    verdict, why = token_class.classify(tok)
+                    rep.violation("%s:token-class:%s:%s" % (key, c06.GEN[ev[1]] if ev[1] < len(c06.GEN) else "corpus", why), what,
+                                  dict(token=tok[:400].decode("latin-1"), token_len=len(tok), classifier=[verdict, why]))
     # 2. policy matrix
     b = vf.driver("d_policy", "asan")
     spec = ("prov=0,1;route=0,1,2,3;cfg=0,1,4,7,10,14,15;keys=none,oct:64,oct:16,rsa:2048,rsa:1024,ec:P-256,okp:Ed25519;kalg=-1,0,1,4,7,14,15;pub=0,1;"
@@ -180,5 +186,6 @@ def run(tier, seed, replay):
     vf.need(rep, c.get("hist.verify.fail", 0) > 1000 and c.get("hist.verify.ok", 0) > 1000, "history workload not diverse")
     vf.need(rep, c.get("policy.verify.fail", 0) > 1000 and c.get("policy.generate.fail", 0) > 100, "policy workload not diverse")
     vf.need(rep, c.get("jwk.items_error", 0) > 200, "too few bad JWK items")
+    vf.need(rep, c.get("tokens.verify_calls", 0) > 100000 and c.get("tokens.logged", 0) > 100, "malformed-token stage observed nothing")
     vf.need(rep, len(seen) >= 25, "fewer than 25 distinct library error messages observed (%d)" % len(seen))
     return rep
